@@ -265,6 +265,26 @@ fn build_case(fmt: Fmt, bytes: Vec<u8>, cfg: Config, faults: Vec<Fault>, ops: Ve
     }
 }
 
+/// same length, same line structure, other content: an injective substitution of the sequence letters
+pub fn twin_input(input: &[u8]) -> Vec<u8> {
+    input
+        .iter()
+        .map(|b| match b {
+            b'A' => b'C',
+            b'C' => b'G',
+            b'G' => b'T',
+            b'T' => b'A',
+            b'a' => b'c',
+            b'c' => b'g',
+            b'g' => b't',
+            b't' => b'a',
+            b'I' => b'J',
+            b'J' => b'I',
+            x => *x,
+        })
+        .collect()
+}
+
 fn hist_sig(case: &HCase) -> u64 {
     let mut h = Fnv::new();
     h.bytes(&case.input)
@@ -316,11 +336,16 @@ pub fn c04(ctx: &Ctx, rep: &mut Report) {
             cfg.chunking = Chunking::Whole;
             rep.count("histories_with_sets_beyond_65535_records");
         }
+        if !ctx.miri && (idx / 2) % 3 == 1 && bytes.len() < 60_000 && rng.chance(1, 2) {
+            // (twin runs, see below) the whole input in one buffer: every fill of every set then sees the
+            // same buffer offset and length, for both readers
+            cfg.cap = (bytes.len() + 1 + rng.below(50)).max(3);
+        }
         gen::tame(&mut cfg, bytes.len());
         let ops = gen_ops(&mut rng, r.recs.len(), r.has_err(), &w, if ctx.miri { 10 } else if ctx.tier_thorough { 70 } else { 40 });
         let case = build_case(fmt, bytes, cfg, vec![], ops);
         rep.evaluations += 1;
-        let out = run_history(
+        let (out, used_sets) = crate::hist::run_history_reusing(
             &case,
             RunOpts {
                 iter_unknown_slots: false,
@@ -328,9 +353,35 @@ pub fn c04(ctx: &Ctx, rep: &mut Report) {
                 err_fields: false,
                 rep: Some(rep),
             },
+            None,
         );
         report_outcome(ctx, idx, rep, &case, &out, &["order", "total"], json!(null));
         add_stats(rep, &out);
+        if !ctx.miri && (idx / 2) % 3 == 1 && family != "huge-set" && out.deviations.is_empty() {
+            // the same operations by a NEW reader over a twin input (same length and line structure, other
+            // letters), filling the record sets the first reader has used: a set refilled by another reader
+            // holds that reader's batch, whatever coincides between the two inputs (offsets, lengths, counts)
+            let twin = twin_input(&case.input);
+            let tr = fmt.reference(&twin);
+            if tr.recs.len() == case.reference.recs.len() && !tr.ambiguous() {
+                let tcase = build_case(fmt, twin, case.cfg.clone(), vec![], case.ops.clone());
+                rep.evaluations += 1;
+                rep.count("histories_repeated_on_a_twin_input_with_reused_sets");
+                rep.map("twin_runs_by_format", fmt.name());
+                let (out2, _) = crate::hist::run_history_reusing(
+                    &tcase,
+                    RunOpts {
+                        iter_unknown_slots: false,
+                        necessity: false,
+                        err_fields: false,
+                        rep: None,
+                    },
+                    Some(used_sets),
+                );
+                report_outcome(ctx, idx, rep, &tcase, &out2, &["order", "total"], json!("record sets reused from another reader over a twin input"));
+                rep.add("records_delivered_into_sets_of_another_reader", out2.stats.records_delivered as u64);
+            }
+        }
         rep.map("family", family);
         rep.map("format", fmt.name());
         rep.map("chunking", case.cfg.chunking.name());
@@ -436,7 +487,7 @@ pub fn c05(ctx: &Ctx, rep: &mut Report) {
                 rep: Some(rep),
             },
         );
-        if !ctx.miri && idx % 8 == 5 && family != "huge-set" && out.deviations.is_empty() && out.stats.read_calls > 0 {
+        if !ctx.miri && (idx / 2) % 4 == 2 && family != "huge-set" && out.deviations.is_empty() && out.stats.read_calls > 0 {
             // the same history once more with one transient source error: the failing call returns it, the
             // history goes on; every record returned afterwards must still report its true coordinates
             // (what else may happen after an error is C06's and C14's business)
@@ -449,6 +500,7 @@ pub fn c05(ctx: &Ctx, rep: &mut Report) {
             }];
             rep.evaluations += 1;
             rep.count("histories_repeated_with_a_transient_source_error");
+            rep.map("fault_repeats_by_format", fmt.name());
             let out2 = run_history(
                 &case,
                 RunOpts {
@@ -959,9 +1011,13 @@ pub fn c14(ctx: &Ctx, rep: &mut Report) {
         // interrupted-read patterns: a third of the cases (also exhaustive short masks)
         let int_mode = idx % 3 == 0;
         cfg.interrupts = if int_mode {
-            match rng.below(3) {
+            match rng.below(4) {
                 0 => Interrupts::BeforeEvery,
                 1 => Interrupts::Mask(rng.next()),
+                2 if !ctx.miri => Interrupts::Storm(
+                    *rng.pick(&[4usize, 100, 256, 1000, 1023, 1024, 1025, 4096, 65_535, 65_536, 70_000]),
+                    rng.below(8),
+                ),
                 _ => Interrupts::Seeded(rng.next(), rng.range(1, 12)),
             }
         } else {
@@ -986,6 +1042,11 @@ pub fn c14(ctx: &Ctx, rep: &mut Report) {
         );
         if int_mode {
             rep.count("interrupted_pattern_runs");
+            if let Interrupts::Storm(n, _) = base.cfg.interrupts {
+                if n >= 1025 && out0.stats.interrupts_seen >= n {
+                    rep.count("interrupt_storms_longer_than_1024_delivered");
+                }
+            }
             // with interrupts every deviation from the model is a visible effect of them
             report_outcome(ctx, idx, rep, &base, &out0, &["io", "order", "total", "position"], json!("interrupted reads"));
             // and the transcript must be identical to the one without interrupts
